@@ -147,12 +147,20 @@ fn long_files(tier: Tier) -> Vec<FileCase> {
                                     "constant" => alpha[1].clone(),
                                     "alternating" => alpha[i % 2].clone(),
                                     "ramp" => match &alpha[2] {
+                                        // every value inside the range of the logical type (a file with -1000 in a
+                                        // UINT_16 column is not a valid file)
                                         PV::I32(_) => match logical {
                                             Logical::UInt8 => PV::I32((i % 256) as i32),
                                             Logical::Int8 => PV::I32((i % 256) as i32 - 128),
+                                            Logical::UInt16 => PV::I32(((i * 37) % 65536) as i32),
+                                            Logical::Int16 => PV::I32(((i * 37) % 65536) as i32 - 32768),
+                                            Logical::UInt32 => PV::I32((i as u32).wrapping_mul(2_000_003) as i32),
                                             _ => PV::I32(i as i32 * 3 - 1000),
                                         },
-                                        PV::I64(_) => PV::I64(i as i64 * 1_000_003 - 5),
+                                        PV::I64(_) => match logical {
+                                            Logical::UInt64 => PV::I64((i as u64).wrapping_mul(9_000_000_000_000_007) as i64),
+                                            _ => PV::I64(i as i64 * 1_000_003 - 5),
+                                        },
                                         PV::F32(_) => PV::F32(i as f32 * 0.5),
                                         PV::F64(_) => PV::F64(i as f64 * 0.25),
                                         PV::Bytes(_) => PV::Bytes(format!("prefix-{:05}", i).into_bytes()),
